@@ -211,13 +211,13 @@ def stepLine (d : D) (line : String) : D × String :=
   | ["svc", "stop", seq] =>
     match seq.toNat? with
     | some seq =>
-      let v := if accepted d.svc.seq d.svc.running .syncStop seq then d.svc.reset else d.svc
+      let v := d.svc.stop seq
       ({ d with svc := v }, showSvc v)
     | none => bad d
   | ["svc", "finderfail", seq] =>
     match seq.toNat? with
     | some seq =>
-      let v := if accepted d.svc.seq d.svc.running .finderResult seq then d.svc.reset else d.svc
+      let v := d.svc.finderFail seq
       ({ d with svc := v }, showSvc v)
     | none => bad d
   -- chunk receiver
